@@ -30,4 +30,4 @@ TRUSTED = [
 
 
 def main(chk: core.Check, replay: typing.Optional[str] = None) -> int:
-    return campaign.run(chk, 'des', [], TRUSTED, replay)
+    return campaign.run(chk, 'des', ['codec_tpl'], TRUSTED, replay)
